@@ -189,7 +189,8 @@ fn rename(t: &crate::tgen::T) -> crate::tgen::T {
 }
 
 fn check_closure(ctx: &Ctx, clo: &Clo, ab: usize) {
-    let thorough = !ctx.quick();
+    // (every depth up to 300 for the hand-written closures; the generated bodies keep the quick depth set)
+    let thorough = !ctx.quick() && !clo.name.starts_with("generated:");
     let (cname, defs, nargs) = (&clo.name, &clo.defs, &clo.nargs);
     let (va, vb) = AB_POOL[ab];
     let mut s = Session::with_inputs(&[("k", json!("input-k"))]);
